@@ -13,5 +13,7 @@ def run(ctx):
     # T: random histories with many ties, initial slices with duplicate keys, drains
     drive_tv(ctx, "heap", "Trace_Heap", "tvh.cfg", "heap", runs=ctx.pick(24, 240), ops=ctx.pick(300, 600))
     drive_tv(ctx, "heap", "Trace_PQ", "tvq.cfg", "pq", runs=ctx.pick(24, 240), ops=ctx.pick(300, 600))
+    # larger queues (7-24 keys): removals/updates of inner keys followed by pops
+    drive_tv(ctx, "heap", "Trace_PQ", "tvq_big.cfg", "pq", variant="big", runs=ctx.pick(80, 600), ops=ctx.pick(300, 600))
     ctx.assumptions += ["heap contents are observed with a fresh, fully drained iterator after every call",
                         "ties and duplicate initial keys: any candidate the statement allows is accepted"]
